@@ -288,11 +288,28 @@ func (vc *VC) compileBin(env *Env, n *SNode) *Val {
 	if a.K == KConst && b.K == KConst {
 		return vc.constBin(op, a.N, b.N)
 	}
-	// mathematical Int
+	// mathematical Int (in integer mode all spec arithmetic on Go integers is mathematical; use explicit
+	// conversions such as uint64(e) to wrap)
+	if vc.intMode && (a.K == KBV || b.K == KBV) {
+		switch op {
+		case "+", "-", "*", "/", "%", "==", "!=", "<", "<=", ">", ">=":
+			if a.K == KBV {
+				a = &Val{K: KInt, C: []string{a.C[0]}}
+			}
+			if b.K == KBV {
+				b = &Val{K: KInt, C: []string{b.C[0]}}
+			}
+		}
+	}
 	if a.K == KInt || b.K == KInt {
 		x, y := vc.toInt(a), vc.toInt(b)
 		switch op {
-		case "+", "-", "*":
+		case "*":
+			if vc.intMode {
+				return &Val{K: KInt, C: []string{vc.prodTerm(x, y)}}
+			}
+			return &Val{K: KInt, C: []string{app(op, x, y)}}
+		case "+", "-":
 			return &Val{K: KInt, C: []string{app(op, x, y)}}
 		case "/":
 			return &Val{K: KInt, C: []string{app("div", x, y)}}
